@@ -92,8 +92,10 @@ def cmd_confirm(a):
         if pkgs is None:
             pkgs = ["./..."] if a.full else touched_packages(patch)
         t0 = time.time()
-        rc, out = sh(["go", "test", "-mod=mod", "-vet=off", "-count=1", "-timeout", "60m"] + pkgs, cwd=wt)
+        rc, out = sh(["go", "test", "-mod=mod", "-vet=off", "-count=1", "-timeout", "240m"] + pkgs, cwd=wt)
         res["existing_tests_pass"] = rc == 0
+        if rc and "test timed out" in out:
+            res["existing_tests_timed_out"] = True  # machine load, not a verdict
         res["existing_tests_packages"] = pkgs
         res["existing_tests_seconds"] = round(time.time() - t0)
         if rc:
